@@ -1,5 +1,6 @@
 import KoordVerif.Common.Proto
 import KoordVerif.Model.C09
+import KoordVerif.Model.C09Plugin
 /-
 Driver for C09.  A case is a sequence of scenario-building lines and `calc` lines:
   cfg  <cpuThr> <memThr> <cpuPol> <memPol> <cpuCapPct|-1> <memCapPct|-1> <degradeMinutes>
@@ -14,6 +15,19 @@ Driver for C09.  A case is a sequence of scenario-building lines and `calc` line
   clear       -> forget the scenario (paired monotonicity runs)
   mids <cap> <reservedPct> <thrPct>                                   -> `mid <v>`
   midp <cap> <unallocated> <nodeUnused> <reclaimable> <unallocPct> <thrPct> -> `mid <v>`
+plugin glue (Model/C09Plugin.lean):
+  mcfg <static> <midCpuThr|-1> <midMemThr|-1> <cpuRes|-1> <memRes|-1> <unalloc|-1>      (-1 = nil pointer => default)
+  mmet <hasReclaim> <recC> <recM> <usageValid> <useC> <useM>
+  mnode <allocNil>
+  mcalc       -> `merr` | `mdeg` | `mid <cpu> <mem>`                      (midresource Plugin.Calculate)
+  mprep       -> `mpub <cpu|-1> <mem|-1>`                                   (… -> Plugin.Prepare; -1 = resource absent)
+  msync <oldC|-1> <oldM|-1> <thrPermille> -> `msync <0|1>`                  (Plugin.NeedSync old vs prepared)
+  bprep <ratioPct|-1> <annoNil> <tpKind 0 absent|1 bad|2 some> <tpC|-1> <tpM|-1>
+              -> `bpub <cpu|-1> <mem|-1>` `origin none|<cpu> <mem>`         (batchresource Calculate -> Prepare)
+  bsync <oldC|-1> <oldM|-1> <thrPermille> -> `bsync <0|1>`                  (after bprep)
+  hcfg <enabled> <updateIntervalSec> <thrPermille>
+  newround    -> forget the scenario but keep the node's published amounts and the last sync time
+  rec         -> `node <bc> <bm> <mc> <mm>` `sync <0|1>`                    (one Reconcile at `time`'s now)
 Float parameters are instantiated with Lean's runtime Float (IEEE binary64, as Go).
 -/
 namespace KoordVerif.C09
@@ -23,6 +37,9 @@ def floatOps : FloatOps where
   mulPct v k := (Float.ofInt v * (Float.ofInt k / 100.0)).toInt64.toInt
   divCeil v n := (Float.ceil (Float.ofInt v / Float.ofInt n)).toInt64.toInt
 
+def diffOps : DiffOps where
+  diffGt o n k := Float.abs (Float.ofInt (n - o)) > Float.ofInt o * (Float.ofInt k / 1000.0)
+
 structure St where
   s : Option Strategy := none
   n : Option NodeIn := none
@@ -31,6 +48,12 @@ structure St where
   mets : Array Metric := #[]
   hosts : Array HostApp := #[]
   zones : Array Zone := #[]
+  ms : Option MidStrategy := none
+  mm : Option MidMetric := none
+  allocNil : Bool := false
+  bprepared : Option BatchPrepared := none
+  hcfg : Option (Bool × Int × Int) := none
+  rst : RState := RState.init
 
 def prio? : Int → Option Prio
   | 0 => some .prod | 1 => some .mid | 2 => some .batch | 3 => some .free | 4 => some .none | _ => none
@@ -61,11 +84,48 @@ def showCalc (st : St) : List String :=
          | some l => mapIdxFrom (fun i (p : Int × Int) => s!"zone {i} {p.1} {p.2}") 0 l)
   | _, _, _ => ["bad-op"]
 
+def optNeg (x : Int) : Option Int := if x < 0 then none else some x
+def showExt (e : Ext) : String := match e with | none => "-1" | some v => toString v
+
+def midOut? (st : St) : Option MidOut :=
+  match st.s, st.n, st.t, st.ms, st.mm with
+  | some s, some n, some (hu, now, upd), some ms, some mm =>
+    some (midCalculate floatOps stdPrio stdMidDefaults ms s.degradeMin n st.allocNil st.hosts.toList st.pods.toList mm hu now upd)
+  | _, _, _, _, _ => none
+
+def batchOut? (st : St) : Option Out :=
+  match st.s, st.n, st.t with
+  | some s, some n, some (hu, now, upd) =>
+    some (calculate floatOps stdPrio s n st.hosts.toList st.pods.toList st.mets.toList st.zones.toList hu now upd)
+  | _, _, _ => none
+
+def showRec (st : St) : St × List String :=
+  match st.s, st.n, st.t, st.ms, st.mm, st.hcfg with
+  | some s, some n, some (hu, now, upd), some ms, some mm, some (en, interval, thr) =>
+    let c := computedPub floatOps stdPrio stdMidDefaults en s ms n st.allocNil st.hosts.toList st.pods.toList st.mets.toList mm hu now upd
+    let r' := reconcileStep diffOps thr interval now st.rst c
+    ({ st with rst := r' },
+     [s!"node {showExt r'.pub.bc} {showExt r'.pub.bm} {showExt r'.pub.mc} {showExt r'.pub.mm}",
+      s!"sync {b2i (commonNeedSync st.rst.lastSync now interval || pluginsNeedSync diffOps thr st.rst.pub c)}"])
+  | _, _, _, _, _, _ => (st, ["bad-op"])
+
 def step (st : St) (line : String) : St × List String :=
   let bad : St × List String := (st, ["bad-op"])
   match toks line with
   | ["calc"] => (st, showCalc st)
   | ["clear"] => ({}, [])
+  | ["newround"] => ({ rst := st.rst }, [])
+  | ["rec"] => showRec st
+  | ["mcalc"] =>
+    match midOut? st with
+    | some .error => (st, ["merr"])
+    | some .degraded => (st, ["mdeg"])
+    | some (.mid c m) => (st, [s!"mid {c} {m}"])
+    | none => bad
+  | ["mprep"] =>
+    match midOut? st with
+    | some o => let (c, m) := midPrepare o; (st, [s!"mpub {showExt c} {showExt m}"])
+    | none => bad
   | kind :: rest =>
     match ints? rest with
     | none => bad
@@ -105,6 +165,49 @@ def step (st : St) (line : String) : St × List String :=
         match bool? hc, bool? hm with
         | some hc, some hm => ({ st with zones := st.zones.push { hasC := hc, hasM := hm, allocC := ac, allocM := am } }, [])
         | _, _ => bad
+      | "mcfg", [sm, a, b, c, d, e] =>
+        match bool? sm with
+        | some sm => ({ st with ms := some { static := sm, cpuThr := optNeg a, memThr := optNeg b, cpuRes := optNeg c,
+                                             memRes := optNeg d, unalloc := optNeg e } }, [])
+        | none => bad
+      | "mmet", [hr, rc, rm, uv, uc, um] =>
+        match bool? hr, bool? uv with
+        | some hr, some uv => ({ st with mm := some { hasReclaim := hr, recC := rc, recM := rm, usageValid := uv, useC := uc, useM := um } }, [])
+        | _, _ => bad
+      | "mnode", [an] =>
+        match bool? an with
+        | some an => ({ st with allocNil := an }, [])
+        | none => bad
+      | "msync", [oc, om, thr] =>
+        match midOut? st with
+        | some o =>
+          let (c, m) := midPrepare o
+          let old : Pub := { Pub.empty with mc := optNeg oc, mm := optNeg om }
+          let new : Pub := { Pub.empty with mc := c, mm := m }
+          (st, [s!"msync {b2i (midNeedSync diffOps thr old new)}"])
+        | none => bad
+      | "bprep", [ratio, an, tk, tc, tm] =>
+        let tp : Option ThirdParty := match tk with
+          | 0 => some .absent | 1 => some .bad | 2 => some (.some (optNeg tc) (optNeg tm)) | _ => none
+        match batchOut? st, bool? an, tp with
+        | some o, some an, some tp =>
+          let (qc, qm, rs) := batchOutQuantities o
+          let b := batchPrepare floatOps (optNeg ratio) an tp qc qm rs
+          ({ st with bprepared := some b },
+           [s!"bpub {showExt b.cpu} {showExt b.mem}",
+            match b.origin with | none => "origin none" | some (c, m) => s!"origin {c} {m}"])
+        | _, _, _ => bad
+      | "bsync", [oc, om, thr] =>
+        match st.bprepared with
+        | some b =>
+          let old : Pub := { Pub.empty with bc := optNeg oc, bm := optNeg om }
+          let new : Pub := { Pub.empty with bc := b.cpu, bm := b.mem }
+          (st, [s!"bsync {b2i (batchNeedSync diffOps thr old new)}"])
+        | none => bad
+      | "hcfg", [en, interval, thr] =>
+        match bool? en with
+        | some en => ({ st with hcfg := some (en, interval, thr) }, [])
+        | none => bad
       | "mids", [cap, rp, tp] => (st, [s!"mid {midStatic floatOps cap rp tp}"])
       | "midp", [cap, ua, nu, rc, up, tp] => (st, [s!"mid {midByPolicy floatOps cap ua nu rc up tp}"])
       | _, _ => bad
